@@ -32,4 +32,10 @@ def function_level(ctx: fw.Ctx) -> None:
 
 
 def replay(ctx: fw.Ctx, body: dict) -> bool:
+    try:
+        from kv.props import c14_model
+        if c14_model.is_function_level_replay(body):
+            return c14_model.replay(ctx, body)
+    except ImportError:
+        pass
     return cr.replay_scenario(ctx, body, MONITORS)
